@@ -100,6 +100,8 @@ class MixOracle:
     def ham(self, p, f): return mix(P, self.seed, 12, [p, f])
     def hsys(self, p): return mix(P, self.seed, 13, [p])
     def cmap(self, n, e): return mix(P, self.seed, 14, [n, e])
+    # stability pipeline
+    def eigcls(self, c, o): return mix(P, self.seed, 21, [c, o])
 
 
 class O0(MixOracle):
@@ -118,6 +120,7 @@ class O0(MixOracle):
     def ham(self, p, f): return 7 * p + f
     def hsys(self, p): return 3 * p + 1
     def cmap(self, n, e): return 1000 * n + e
+    def eigcls(self, c, o): return 10 * c + o + 1   # `R0` of Props/C20.lean
 
 
 # ----------------------------------------------------------------------------------------------------------------
@@ -139,6 +142,11 @@ def load_hiten():
     import hiten.algorithms.types.services.base as SB
     from hiten.algorithms.corrector.base import CorrectorPipeline
     from hiten.algorithms.integrators.types import _Solution
+    from hiten.algorithms.linalg.base import StabilityPipeline
+    from hiten.algorithms.linalg.config import EigenDecompositionConfig
+    from hiten.algorithms.linalg.options import EigenDecompositionOptions
+    from hiten.algorithms.linalg.types import _ProblemType, _SystemType
+    H.StabilityPipeline, H.EigCfg, H.EigOpt, H._ProblemType, H._SystemType = StabilityPipeline, EigenDecompositionConfig, EigenDecompositionOptions, _ProblemType, _SystemType
     from hiten.system import System
     from hiten.system.center import CenterManifold
     from hiten.system.manifold import Manifold
@@ -257,6 +265,14 @@ class Stubs:
             v = st.orc.man(xt(orbit.initial_state), Tt(orbit.period), c)
             return ([], [], [np.array([[float(v), 0, 0, 0, 0, 0]])], [np.array([0.0])], 1, 1)
 
+        def fake_eig_compute(pipe, domain_obj=None, options=None):
+            c = 1 if pipe._config.system_type == H._SystemType.CONTINUOUS else 0
+            o = int(round(-math.log2(options.delta))) - 10
+            v = np.array([float(st.orc.eigcls(c, o))])
+            pipe._results = types.SimpleNamespace(stable=v, unstable=v.copy(), center=v.copy(), Ws=v.copy(), Wu=v.copy(), Wc=v.copy())
+            return pipe._results
+
+        self.stab_stub = fake_eig_compute
         self.patch(H.SO, "_propagate_dynsys", fake_prop)
         self.patch(H.SS, "_propagate_dynsys", fake_prop)
         self.patch(H.SO, "_compute_monodromy", fake_mono)
@@ -268,6 +284,11 @@ class Stubs:
         self.patch(H.SC, "get_hamiltonian_services",
                    lambda: types.SimpleNamespace(conversion=None, pipeline=FakePipelineService(st.orc)))
         self.patch(H.SC, "CenterManifoldMap", FakeMap)
+
+    def stub_stability(self):
+        """additionally stub the eigen-classification and the manifold's STM (used by the stability histories only)"""
+        self.patch(H.StabilityPipeline, "compute", self.stab_stub)
+        self.patch(H.SM, "_compute_stm", lambda *a, **k: (None, None, np.eye(6), None))
 
     def restore(self):
         for obj, name, val in reversed(self.saved):
@@ -493,6 +514,137 @@ def run_cm_history(d, ops, twin="all"):
     return outs, touts
 
 
+# ---------------------------------------------------------------- stability pipeline cache
+STAB_ALPHABET = ["ST 0", "ST 1", "ST 2", "EG", "SO 0", "SO 1", "SG 0", "SG 1"]
+STAB_KEYS = [
+    ("stability:pipeline-shared-across-options",
+     "compute_stability(A); compute_stability(B); compute_stability(A) (or eigenvalues with default options A) returns the classification computed with B: every options key caches the same StabilityPipeline object"),
+    ("stability:config-setter-keeps-cache",
+     "compute_stability(A); eigendecomposition_config := c'; compute_stability(A) returns the classification of the old configuration"),
+]
+
+
+def eig_opts(o):
+    return H.EigOpt(delta=2.0 ** -(10 + o), tol=1e-6)
+
+
+def eig_cfg(c):
+    return H.EigCfg(problem_type=H._ProblemType.EIGENVALUE_DECOMPOSITION,
+                    system_type=H._SystemType.CONTINUOUS if c == 1 else H._SystemType.DISCRETE)
+
+
+class RealStab:
+    """the `compute_stability(options)` cache of a real Manifold ('man') or LibrationPoint ('lib') dynamics service;
+    the eigen-classification (`StabilityPipeline.compute`) is stubbed, the STM of the manifold too"""
+
+    def __init__(self, kind, c, o):
+        self.kind = kind
+        if kind == "man":
+            self.obj = H.Manifold(new_orbit(1, 0))
+        else:
+            self.obj = H.System.from_mu(0.01).get_libration_point(1)
+        self.dyn = self.obj.dynamics
+        self.dyn.eigendecomposition_config = eig_cfg(c)
+        self.dyn.eigendecomposition_options = eig_opts(o)
+        self.c, self.o = c, o
+
+    def do(self, op):
+        a = op.split()
+        try:
+            if a[0] == "ST":
+                return "t%d" % int(round(float(self.dyn.compute_stability(eig_opts(int(a[1]))).eigenvalues[0][0])))
+            if a[0] == "EG":
+                return "t%d" % int(round(float(self.dyn.eigenvalues[0][0])))
+            if a[0] == "SO":
+                self.dyn.eigendecomposition_options = eig_opts(int(a[1]))
+                self.o = int(a[1])
+                return "u"
+            if a[0] == "SG":
+                self.dyn.eigendecomposition_config = eig_cfg(int(a[1]))
+                self.c = int(a[1])
+                return "u"
+        except Exception as e:  # noqa: BLE001
+            return "e?%s:%s" % (type(e).__name__, str(e)[:60].replace(" ", "_"))
+        raise RuntimeError("unknown op " + op)
+
+
+def run_stab_history(kind, c, o, ops, twin="all"):
+    rs = RealStab(kind, c, o)
+    outs, touts = [], []
+    for i, op in enumerate(ops):
+        want = twin == "all" or (twin == "last" and i == len(ops) - 1)
+        # the fresh twin is rebuilt from the public getters (configuration, default options)
+        if want:
+            cfg = rs.dyn.eigendecomposition_config
+            cc = 1 if cfg.system_type == H._SystemType.CONTINUOUS else 0
+            oo = int(round(-math.log2(rs.dyn.eigendecomposition_options.delta))) - 10
+            touts.append(RealStab(kind, cc, oo).do(op))
+        else:
+            touts.append(None)
+        outs.append(rs.do(op))
+    return outs, touts
+
+
+def probe_stab_flags(kind):
+    STUBS.orc = O0()
+    res, detail = [], []
+    for hist in (["ST 0", "ST 1", "ST 0"], ["ST 0", "SG 1", "ST 0"]):
+        outs, touts = run_stab_history(kind, 0, 0, hist, twin="all")
+        res.append(outs == touts)
+        detail.append({"history": hist, "observed": outs, "fresh_twin": touts})
+    return res, detail
+
+
+def correspond_stab(ctx, G):
+    n_model_bad = n_spec_bad = n_stale = 0
+    ex = []
+    for kind in ("man", "lib"):
+        flags = G["sflags"][kind]
+        hs = []
+        nmax = 4 if ctx.thorough() else 3
+        for n in range(1, nmax + 1):
+            for ops in itertools.product(STAB_ALPHABET, repeat=n):
+                hs.append(("stab-exh%d" % n, list(ops), "last"))
+        for _ in range(40 if ctx.thorough() else 10):
+            hs.append(("stab-walk", [ctx.rng.choice(STAB_ALPHABET) for _ in range(30)], "all"))
+        lines, real = [], []
+        for (hk, ops, twin) in hs:
+            seed = ctx.rng.randrange(1000)
+            c, o = ctx.rng.choice([0, 1]), ctx.rng.choice([0, 1])
+            STUBS.orc = MixOracle(P, seed)
+            outs, touts = run_stab_history(kind, c, o, ops, twin=twin)
+            real.append((outs, touts, seed, c, o))
+            lines.append("S %d %d %d %d %d ; %s" % (flags[0], flags[1], seed, c, o, " ; ".join(ops)))
+        out = ctx.lean_run("Drivers/C20.lean", "\n".join(lines) + "\n")
+        for (hk, ops, twin), (outs, touts, seed, c, o), ln in zip(hs, real, out):
+            m_out, s_out = [p.split() for p in ln.split("|")]
+            ctx.case((kind, hk, tuple(ops)) if hk != "stab-walk" else (kind, hk, seed), nontrivial=len(set(outs)) > 2, kind=kind + "-" + hk)
+            ctx.corr_cases += 1
+            if outs != m_out:
+                n_model_bad += 1
+                i = first_diff(outs, m_out)
+                if len(ex) < 3:
+                    ex.append({"object": kind, "start": [c, o], "ops": ops[:i + 1], "real": outs[:i + 1], "model": m_out[:i + 1]})
+            j = spec_twin_mismatch(outs, touts, s_out)
+            if j is not None:
+                n_spec_bad += 1
+                if n_spec_bad <= 3:
+                    ctx.broken.append(("correspondence:stability-spec-vs-real-twin", "%s history %s: Lean twin %s, real twin %s" % (kind, ops[:j + 1], s_out[j], touts[j])))
+            k = first_diff(outs, touts)
+            if k is not None:
+                n_stale += 1
+                if (outs[:k + 1] != m_out[:k + 1] or all(flags)) and len([v for v in ctx.violations if v["key"].startswith("stability:history:")]) < 3:
+                    ctx.violation("stability:history:%s:%s" % (kind, ";".join(ops[:k + 1])),
+                                  "stale eigen-classification on the real %s (classification stubbed): %s, fresh twin %s" % ({"man": "Manifold", "lib": "LibrationPoint"}[kind], outs[k], touts[k]),
+                                  {"object": kind, "start_config_options": [c, o], "history": ops[:k + 1], "observed": outs[:k + 1], "fresh_twin_last": touts[k],
+                                   "legend": "ST=compute_stability(options k).eigenvalues, EG=eigenvalues (default options), SO=eigendecomposition_options:=k, SG=eigendecomposition_config:=k (0 discrete, 1 continuous)"})
+    ctx.extra["stability_stale_reads_on_real_objects"] = n_stale
+    if n_model_bad:
+        ctx.broken.append(("correspondence:stability-histories", "%d histories: real compute_stability cache and Lean model differ, e.g. %r" % (n_model_bad, ex[:2])))
+    ctx.obligations["correspondence:stability-histories"] = (n_model_bad == 0)
+    ctx.obligations["correspondence:stability-spec-vs-real-twin"] = (n_spec_bad == 0)
+
+
 # ----------------------------------------------------------------------------------------------------------------
 # probing the behaviour switches, census of the key sites
 # ----------------------------------------------------------------------------------------------------------------
@@ -705,9 +857,14 @@ def gen(ctx):
         oflags, odetail = probe_orbit_flags()
         hamdeg, clr, csave, cdetail = probe_cm_flags()
         table, keys = census()
+        STUBS.stub_stability()
+        sflags, sdetail = {}, {}
+        for kind in ("man", "lib"):
+            sflags[kind], sdetail[kind] = probe_stab_flags(kind)
     finally:
         STUBS.restore()
     ctx.extra["probed_orbit_flags"] = dict(zip(ORBIT_FLAGS, oflags))
+    ctx.extra["probed_stability_flags"] = {k: dict(zip(["pipelinePerKey", "keyHasConfig"], v)) for k, v in sflags.items()}
     ctx.extra["probed_cm_flags"] = {"hamDeg": ["never", "onMiss", "always"][hamdeg], "setterClearsHamsys": clr, "saveOverridesStale": csave}
     missing = [(svc, name, why) for svc, sites in table for (name, why, _) in sites if not isinstance(why, list)]
     ctx.extra["key_sites"] = sum(len(s) for _, s in table)
@@ -720,6 +877,9 @@ def gen(ctx):
              "def orbitCfg : Cfg := { " + ", ".join("%s := %s" % (n, lean_bool(v)) for n, v in zip(ORBIT_FLAGS, oflags)) + " }",
              "", "/-- probed on the real CenterManifold -/",
              "def cmCfg : CCfg := { hamDeg := .%s, setterClearsHamsys := %s, saveOverridesStale := %s }" % (["never", "onMiss", "always"][hamdeg], lean_bool(clr), lean_bool(csave)),
+             "", "/-- `compute_stability(options)` cache, probed on the real Manifold / LibrationPoint dynamics services -/",
+             "def stabCfgManifold : SCfg := { pipelinePerKey := %s, keyHasConfig := %s }" % tuple(lean_bool(x) for x in sflags["man"]),
+             "def stabCfgLibration : SCfg := { pipelinePerKey := %s, keyHasConfig := %s }" % tuple(lean_bool(x) for x in sflags["lib"]),
              "", "/-- key shape of every `make_key` call site, per service class (census over the live classes) -/",
              "def services : List (String × List (String × List Slot)) := ["]
     svc_lines = []
@@ -730,7 +890,7 @@ def gen(ctx):
     lines += ["", "end HitenModel.Gen.C20", ""]
     ctx.write_gen("HitenModel.Gen.C20", "\n".join(lines))
     return {"keep": keep, "oflags": oflags, "odetail": odetail, "hamdeg": hamdeg, "clr": clr, "csave": csave, "cdetail": cdetail,
-            "table": table, "keys": keys, "missing": missing}
+            "table": table, "keys": keys, "missing": missing, "sflags": sflags, "sdetail": sdetail}
 
 
 # ----------------------------------------------------------------------------------------------------------------
@@ -1161,6 +1321,38 @@ def unstubbed(ctx, G):
         b = mm.dynamics.compute_stm(steps=20)
         fresh_b = H.Manifold(g).dynamics.compute_stm(steps=20)
         ctx.extra["unstubbed_manifold_stm_stale_after_period_change"] = (b is a) and not arr_eq(b[1], fresh_b[1])
+    # --- compute_stability(options): un-stubbed on a libration point whose classification depends on delta (L4 just
+    # above Routh's mass ratio: Re(lambda) = +-0.0157), and on a manifold with the real classification of a fixed matrix
+    A, B = H.EigOpt(delta=1e-6, tol=1e-8), H.EigOpt(delta=0.5, tol=1e-8)
+    cnt = lambda pipe: [len(x) for x in pipe.eigenvalues]
+    l4 = Sys.from_mu(0.0386).get_libration_point(4)
+    hist = [cnt(l4.dynamics.compute_stability(A)), cnt(l4.dynamics.compute_stability(B)), cnt(l4.dynamics.compute_stability(A))]
+    stale_stable = l4.dynamics.compute_stability(A).is_stable
+    fresh = Sys.from_mu(0.0386).get_libration_point(4).dynamics.compute_stability(A)
+    ctx.case(("stability", "L4-routh"), kind="stability-unstubbed")
+    if hist[2] != cnt(fresh) or stale_stable != fresh.is_stable:
+        ctx.violation("stability:pipeline-shared-across-options:libration",
+                      "un-stubbed: L4 of System.from_mu(0.0386): compute_stability(delta=1e-6); compute_stability(delta=0.5); compute_stability(delta=1e-6) reports the delta=0.5 classification (is_stable %s, fresh object %s)" % (stale_stable, fresh.is_stable),
+                      {"system": "System.from_mu(0.0386).get_libration_point(4)", "history": ["compute_stability(delta=1e-6)", "compute_stability(delta=0.5)", "compute_stability(delta=1e-6)"],
+                       "observed_counts_stable_unstable_center": hist, "fresh_counts": cnt(fresh), "is_stable_observed": bool(stale_stable), "is_stable_fresh": bool(fresh.is_stable)})
+    Phi = np.diag([1.005, 1 / 1.005, 1.0, 1.0, 2.0, 0.5])
+    saved_stm = H.SM._compute_stm
+    H.SM._compute_stm = lambda *a, **k: (None, None, Phi, None)
+    try:
+        A2, B2 = H.EigOpt(delta=1e-6, tol=1e-6), H.EigOpt(delta=1e-2, tol=1e-6)
+        gm = H.GenericOrbit(H.l1, initial_state=[x0[0], 0, 0, 0, 0.05, 0])
+        gm.period = 0.7
+        mm = H.Manifold(gm)
+        hist = [cnt(mm.dynamics.compute_stability(A2)), cnt(mm.dynamics.compute_stability(B2)), cnt(mm.dynamics.compute_stability(A2))]
+        fresh = cnt(H.Manifold(gm).dynamics.compute_stability(A2))
+        ctx.case(("stability", "manifold-matrix"), kind="stability-unstubbed")
+        if hist[2] != fresh:
+            ctx.violation("stability:pipeline-shared-across-options:manifold",
+                          "real eigen-classification of the monodromy diag(1.005, 1/1.005, 1, 1, 2, 0.5) (only the STM is stubbed): compute_stability(delta=1e-6); compute_stability(delta=1e-2); compute_stability(delta=1e-6) reports the weakly unstable pair as centre",
+                          {"history": ["compute_stability(delta=1e-6)", "compute_stability(delta=1e-2)", "compute_stability(delta=1e-6)"],
+                           "observed_counts_stable_unstable_center": hist, "fresh_counts": fresh})
+    finally:
+        H.SM._compute_stm = saved_stm
     if ctx.thorough() and not (G["oflags"][1] and G["oflags"][2]):
         orb = H.l1.create_orbit("lyapunov", amplitude_x=0.02)
         orb.correct()
@@ -1218,6 +1410,15 @@ def run(ctx):
     if not G["clr"]:
         ctx.violation("cm:degree-setter-keeps-hamsys", "hamsys; degree := 4; hamsys returns the system of the old degree",
                       {"object": "CenterManifold(L1, 6), pipeline stubbed", "probes": G["cdetail"]})
+    for kind, name in (("man", "manifold"), ("lib", "libration")):
+        for i, f in enumerate(G["sflags"][kind]):
+            if not f:
+                key, what = STAB_KEYS[i]
+                d = G["sdetail"][kind][i]
+                ctx.violation("%s:%s" % (key, name), what,
+                              {"object": "%s dynamics service; eigen-classification stubbed by R0 of Props/C20.lean" % {"man": "Manifold", "lib": "LibrationPoint"}[kind],
+                               "history": d["history"], "observed": d["observed"], "fresh_twin": d["fresh_twin"],
+                               "legend": "ST=compute_stability(options k).eigenvalues, SG=eigendecomposition_config:=k"})
     # sites the census could not reach weaken keys_separate: say so (not a violation)
     if G["missing"]:
         ctx.notes.append("make_key sites not reached by the census (not covered by keys_separate): %s" % ctx.extra["key_sites_not_reached"])
@@ -1227,6 +1428,10 @@ def run(ctx):
         with KeyRecorder() as kr:
             correspond_orbit(ctx, G)
             correspond_cm(ctx, G)
+            STUBS.stub_stability()
+            t0 = time.time()
+            correspond_stab(ctx, G)
+            ctx.log("stability pipeline cache: histories on the real Manifold / LibrationPoint services in %.1fs" % (time.time() - t0))
         t0 = time.time()
         correspond_make_key(ctx, G)
         check_key_shapes(ctx, G, kr.keys + G["keys"])
